@@ -78,3 +78,6 @@ def run(ctx):
             # noreturn calls aside
             bad.append(pb)
     ctx.ob('DEFINED-RET', 'sf_command', not bad, f.loc(f.body), 'all %d exits return a value' % len(cfg.preds[cfg.exit]) if not bad else 'exit without value in blocks %s' % bad, None)
+
+    from engine.run import borrow
+    borrow(ctx, 'C18', ['CALC-RESTORE'], 'the SFC_CALC_* queries must leave normalisation setting and read position as they were')
